@@ -5,7 +5,8 @@
 #include "../sync_ondata/scripted_engine.h"
 #include "replay_io.h"
 #include <thread>
-struct IoEngine : ScriptedEngine { std::thread::id io; bool running = false; unsigned stops = 0;
+struct IoEngine : ScriptedEngine { std::thread::id io; bool running = false; unsigned stops = 0; std::function<void()> deleter;
+  void scheduleSelfDestruct(std::function<void()> d) override { deleter = std::move(d); }
   bool isRunning() const override { return running; } std::thread::id getIoThreadId() const override { return io; } void stop() override { stops++; running = false; } };
 int main(int argc, char **argv) {
   auto in = replay_io::load(argv[1]); int scen = (int)replay_io::u64(in["SCEN"]);
@@ -32,6 +33,23 @@ int main(int argc, char **argv) {
     if (ok || code != TransportError::ShuttingDown) replay_io::fail("D9/R2 a call parked at teardown must return ShuttingDown");
     if (ms > 5000) replay_io::fail("handshake did not return promptly");
     replay_io::ok("parked call released with a definite result; no use-after-free (ASan)");
+  } else if (scen == 5) {
+    // TD8/TD5: the SOLE owner releases the Transport on the I/O thread (deferred self-destruct branch of ~Transport) while a connectSync is parked elsewhere
+    Transport *raw = t.get(); TransportError code = TransportError::None; bool ok = true;
+    std::thread th([&] { auto r = raw->connectSync("peer", 1, TlsMode::None, std::chrono::milliseconds(4000)); ok = r.isOk(); if (!ok) code = r.error().code; });
+    for (;;) { std::this_thread::sleep_for(std::chrono::milliseconds(2)); std::lock_guard<std::mutex> lk(raw->_impl->syncMutex); if (raw->_impl->activeConnects == 1) break; }
+    e->io = std::this_thread::get_id(); e->running = true;       // this thread plays the I/O thread inside one of its callbacks
+    auto t0 = std::chrono::steady_clock::now();
+    t.reset();
+    auto ms = std::chrono::duration_cast<std::chrono::milliseconds>(std::chrono::steady_clock::now() - t0).count();
+    th.join();
+    printf("~Transport on the I/O thread returned after %lld ms; parked connectSync -> %s code=%d; deferred deleter %s\n", (long long)ms, ok ? "ok" : "err", (int)code, e->deleter ? "scheduled" : "MISSING");
+    auto del = e->deleter; if (del) del();                       // what the engine thread's epilogue does
+    if (ms > 1500) replay_io::fail("TD8: the parked connectSync was not woken by the self-destruct teardown - the I/O thread sat in the handshake until the connector's own timeout");
+    if (ok || code != TransportError::ShuttingDown) replay_io::fail("PC3 woken by teardown: ShuttingDown");
+    if (!del) replay_io::fail("TD3 Impl must be handed to the deferred deleter");
+    replay_io::ok("self-destruct on the I/O thread wakes the parked connectSync and defers the deletion");
+    return 0;
   } else {
     e->io = std::this_thread::get_id(); e->running = true;
     bool threw = false; try { t->stop(); } catch (const std::logic_error &) { threw = true; }
